@@ -19,3 +19,4 @@ CFG = dict(
 CFG["rule"] += ' Added after independently written breaking changes: Runners are registered through the constructor, through Add before Run, or both.'
 CFG["rule"] += ' Grace periods: none, generous, short, zero and negative (a given, non-positive grace period is over when the closers start). TestRunVersusRun: 2-8 goroutines call Run of one fresh manager behind a gate, thousands of managers; every runner started exactly once, exactly one call ran them, the others got ErrManagerAlreadyStarted.'
 CFG["rule"] += " TestCtorSliceStaysCallers: two managers constructed from overlapping parts of one slice, then Add and Run on the first: the second starts every runner it was given. Runner results also include the runner's own deadline errors (bare, wrapped)."
+CFG["rule"] += ' TestCloseVersusClose: 2-8 simultaneous Close calls on fresh and on running managers: no panic, closers once, every Close returns the result of Run.'
